@@ -173,7 +173,7 @@ Record fstate := {
    [fcol]: which data column a feature currently has (set_temporary_feature
    on an existing temporary feature replaces its data; default: the column
    with the feature's own number);
-   [err]: the last operation raised ValueError;
+   [err]: the last operation raised (ValueError, KeyError);
    [stale] is GHOST state (nothing in the code corresponds to it): the
    features whose data were replaced and whose box filter has not been
    recomputed since. The box cache carries no data hash; the documented remedy
@@ -181,20 +181,27 @@ Record fstate := {
    that end with [stale = []]. *)
 Record world := { cfg : config; reg : registry; flt : fstate;
                   feats : list Z; fcol : list (Z * Z); stale : list Z;
+                  kn : list Z;      (* dfn.scalar_feature_exists: deregistering a
+                                       temporary feature makes its name unknown *)
+                  have : list Z;    (* features whose data rtdc_ds[f] returns: the
+                                       data of a deregistered temporary feature stay *)
                   err : bool }.
 
 Definition colof (fc : list (Z * Z)) (f : Z) : Z :=
   match lookup f fc with Some c => c | None => f end.
 
-(* which of the three repairs of Filter.update are present *)
+(* which of the repairs of Filter.update are present *)
 Record variant := {
   see_removed : bool;   (* 1ad19c0: keys removed from the settings count as changed *)
   precheck : bool;      (* 2db14c2: min/max pairing is checked before any box filter is modified *)
-  late_feats : bool     (* fixes_proposed/C03-range-on-late-feature.diff: features with
-                           a range key but without box filter are refiltered *)
+  late_feats : bool;    (* 1895a86: features with a range key but without box filter
+                           are refiltered *)
+  reset_on_raise : bool (* fixes_proposed/C03-failed-update-resets-caches.diff: a
+                           failed update clears both caches and _old_config *)
 }.
 Definition HEAD : variant :=
-  {| see_removed := true; precheck := true; late_feats := true |}.
+  {| see_removed := true; precheck := true; late_feats := true;
+     reset_on_raise := true |}.
 
 Inductive op :=
 | SetMin (f : Z) (v : fval)          (* cfg["f min"] = v *)
@@ -215,6 +222,14 @@ Inductive op :=
 | Reset                              (* ds.reset_filter() *)
 | Apply (force : list Z).            (* ds.apply_filter(force) *)
 
+(* the property's own operations: no replacement of feature data *)
+Fixpoint no_replace (ops : list op) : bool :=
+  match ops with
+  | [] => true
+  | ReplaceTemp _ _ :: _ => false
+  | _ :: ops' => no_replace ops'
+  end.
+
 Section Filter.
   (* oracles *)
   (* PolygonFilter.hash of filter [id] with (axes+points = version v, inverted) *)
@@ -222,7 +237,7 @@ Section Filter.
   Variable choice : Z -> Z -> list Z.  (* seeded np.random.choice(arange(m), k, replace=False) *)
   (* the dataset *)
   Variable rows : list row.
-  Variable known : list Z.             (* dfn.scalar_feature_exists *)
+  Variable vax : list (Z * list Z).    (* the axes (features) of vertex set number v *)
   (* the code variant *)
   Variable vr : variant.
 
@@ -234,9 +249,10 @@ Section Filter.
        a_all := ones; a_box := ones; a_polygon := ones; a_invalid := ones;
        manual := ones; old_rng := [] |}.
 
-  Definition init_world (reg0 : registry) (feats0 : list Z) : world :=
+  Definition init_world (reg0 : registry) (feats0 known0 : list Z) : world :=
     {| cfg := default_config; reg := reg0; flt := reset_fstate;
-       feats := feats0; fcol := []; stale := []; err := false |}.
+       feats := feats0; fcol := []; stale := []; kn := known0; have := feats0;
+       err := false |}.
 
   (* --- Filter.update, part 0: which features must be refiltered ---------- *)
   (* for skey in cfg_cur.keys(): if cfg_cur[skey] != cfg_old.get(skey, None) *)
@@ -275,11 +291,12 @@ Section Filter.
     filter (fun f => negb (has_key f bf) && has_any_key cur f) fs.
 
   (* np.unique(feat2filter) without its sorting, see [sortZ] below *)
-  Definition feat2filter (sr lt : bool) (fs : list Z) (bf : list (Z * list bool))
+  Definition feat2filter (sr lt : bool) (kwn fs : list Z) (bf : list (Z * list bool))
              (cur old : ranges) (force : list Z) : list Z :=
     nodup Z.eq_dec
-          (changed_keys cur old
-           ++ (if sr then removed_keys cur old else [])
+          (filter (fun f => memZ f kwn)      (* if dfn.scalar_feature_exists(k[:-4]) *)
+                  (changed_keys cur old
+                   ++ (if sr then removed_keys cur old else []))
            ++ force
            ++ (if lt then late_keys fs cur bf else [])).
 
@@ -328,8 +345,23 @@ Section Filter.
     if inv then map negb f else f.
 
   (* _init_rtdc_ds: drop cached polygons that left the settings *)
-  Definition prune_polys (ids : list Z) (pf : list (Z * (Z * list bool))) :=
-    filter (fun e => memZ (fst e) ids) pf.
+  Definition axes_of (v : Z) : list Z :=
+    match lookup v vax with Some l => l | None => [] end.
+
+  (* _init_rtdc_ds: drop cached polygons that left the settings or whose
+     axes are not features of the dataset (any more) *)
+  Definition prune_polys (ids : list Z) (rg : registry) (fs : list Z)
+             (pf : list (Z * (Z * list bool))) :=
+    filter (fun e => memZ (fst e) ids
+                     && forallb (fun a => memZ a fs) (axes_of (fst (reg_get rg (fst e)))))
+           pf.
+
+  (* PolygonFilter.get_instance_from_id / rtdc_ds[pf.axes[i]] raise KeyError *)
+  Definition poly_bad (rg : registry) (hv : list Z) (ids : list Z) : bool :=
+    existsb (fun id => match lookup id rg with
+                       | None => true
+                       | Some (v, _) => negb (forallb (fun a => memZ a hv) (axes_of v))
+                       end) ids.
 
   Definition poly_one (rg : registry) (pf : list (Z * (Z * list bool))) (id : Z) :=
     let '(v, inv) := reg_get rg id in
@@ -373,20 +405,27 @@ Section Filter.
     let fs := feats w in
     let fc := fcol w in
     let bf0 := prune_box fs (box_filters s) in
-    let pf0 := prune_polys (polys c) (poly_filters s) in
+    let pf0 := prune_polys (polys c) (reg w) fs (poly_filters s) in
     let inval := invalid_arr fs fc (rm_invalid c) in
-    let f2f := feat2filter (see_removed vr) (late_feats vr) fs bf0
+    let f2f := feat2filter (see_removed vr) (late_feats vr) (kn w) fs bf0
                            (rng c) (old_rng s) force in
-    (* raise ValueError("Box filter: Please make sure that both ... are set!"):
-       the caches have been pruned and the invalid array recomputed by then *)
+    (* an exception: ValueError("Box filter: Please make sure that both ... are
+       set!"), ValueError("Unknown scalar feature name"), KeyError of a polygon
+       filter. The caches have been pruned and the invalid array recomputed by
+       then; with [reset_on_raise] the wrapper clears the caches and
+       _old_config *)
     let raised (bf : list (Z * list bool)) : world :=
       {| cfg := c; reg := reg w;
-         flt := {| box_filters := bf; poly_filters := pf0;
+         flt := {| box_filters := if reset_on_raise vr then [] else bf;
+                   poly_filters := if reset_on_raise vr then [] else pf0;
                    a_all := a_all s; a_box := a_box s; a_polygon := a_polygon s;
                    a_invalid := inval; manual := manual s;
-                   old_rng := old_rng s |};
-         feats := fs; fcol := fc; stale := stale w; err := true |} in
+                   old_rng := if reset_on_raise vr then [] else old_rng s |};
+         feats := fs; fcol := fc;
+         stale := if reset_on_raise vr then [] else stale w;
+         kn := kn w; have := have w; err := true |} in
     let finish (bf : list (Z * list bool)) : world :=
+      if poly_bad (reg w) (have w) (polys c) then raised bf else
       let box := fold_left band (map snd bf) ones in
       let pf := fold_left (poly_one (reg w)) (polys c) pf0 in
       let polygon := fold_left band (map (fun e => snd (snd e)) pf) ones in
@@ -403,9 +442,8 @@ Section Filter.
          feats := fs; fcol := fc;
          (* ghost: refiltered or pruned features are fresh again *)
          stale := filter (fun f => negb (memZ f f2f) && has_key f bf0) (stale w);
-         err := false |} in
-    (* raise ValueError("Unknown scalar feature name") *)
-    if existsb (fun f => negb (memZ f known)) force then raised bf0
+         kn := kn w; have := have w; err := false |} in
+    if existsb (fun f => negb (memZ f (kn w))) force then raised bf0
     else if precheck vr then
       if existsb (half_set (rng c)) f2f then raised bf0
       else finish (fold_left (box_one fs fc (rng c)) f2f bf0)
@@ -417,7 +455,7 @@ Section Filter.
 
   Definition set_cfg (w : world) (c : config) : world :=
     {| cfg := c; reg := reg w; flt := flt w; feats := feats w;
-       fcol := fcol w; stale := stale w; err := false |}.
+       fcol := fcol w; stale := stale w; kn := kn w; have := have w; err := false |}.
 
   Definition set_rng (w : world) (rg : ranges) : world :=
     let c := cfg w in
@@ -440,13 +478,13 @@ Section Filter.
     | ModPoly id v =>
         {| cfg := c; reg := dict_set id (v, snd (reg_get (reg w) id)) (reg w);
            flt := flt w; feats := feats w; fcol := fcol w; stale := stale w;
-           err := false |}
+           kn := kn w; have := have w; err := false |}
     | InvertPoly id =>
         {| cfg := c;
            reg := dict_set id (fst (reg_get (reg w) id),
                                negb (snd (reg_get (reg w) id))) (reg w);
            flt := flt w; feats := feats w; fcol := fcol w; stale := stale w;
-           err := false |}
+           kn := kn w; have := have w; err := false |}
     | SetInvalid b =>
         set_cfg w {| rng := rng c; rm_invalid := b; enable := enable c;
                      limit := limit c; polys := polys c |}
@@ -465,26 +503,34 @@ Section Filter.
                      manual := if (0 <=? i) then set_nth (Z.to_nat i) b (manual s)
                                else manual s;
                      old_rng := old_rng s |};
-           feats := feats w; fcol := fcol w; stale := stale w; err := false |}
+           feats := feats w; fcol := fcol w; stale := stale w; kn := kn w; have := have w; err := false |}
     | Reset =>
         (* Filter.reset(); config._init_default_filter_values(): the five
            default keys are overwritten, the range keys stay *)
         {| cfg := {| rng := rng c; rm_invalid := false; enable := true;
                      limit := 0; polys := [] |};
            reg := reg w; flt := reset_fstate; feats := feats w;
-           fcol := fcol w; stale := []; err := false |}
+           fcol := fcol w; stale := []; kn := kn w; have := have w; err := false |}
     | AddFeat f =>
         {| cfg := c; reg := reg w; flt := flt w;
            feats := if memZ f (feats w) then feats w else feats w ++ [f];
-           fcol := fcol w; stale := stale w; err := false |}
+           fcol := fcol w; stale := stale w;
+           kn := if memZ f (kn w) then kn w else kn w ++ [f];
+           have := if memZ f (have w) then have w else have w ++ [f];
+           err := false |}
     | DelFeat f =>
         {| cfg := c; reg := reg w; flt := flt w;
            feats := filter (fun g => negb (g =? f)) (feats w);
-           fcol := fcol w; stale := stale w; err := false |}
+           fcol := fcol w; stale := stale w;
+           kn := filter (fun g => negb (g =? f)) (kn w); have := have w;
+           err := false |}
     | ReplaceTemp f c' =>
         {| cfg := c; reg := reg w; flt := flt w;
            feats := if memZ f (feats w) then feats w else feats w ++ [f];
-           fcol := dict_set f c' (fcol w); stale := f :: stale w; err := false |}
+           fcol := dict_set f c' (fcol w); stale := f :: stale w;
+           kn := if memZ f (kn w) then kn w else kn w ++ [f];
+           have := if memZ f (have w) then have w else have w ++ [f];
+           err := false |}
     | Apply force => update w force
     end.
 
@@ -595,12 +641,12 @@ Definition enc_bools (l : list bool) : list Z := map (fun b : bool => if b then 
            (spec_all ++ spec_box ++ spec_polygon ++ spec_invalid), compared by
            the harness with its stateless Python reference *)
 Fixpoint run_obs (mode : Z) (hashf : Z -> Z -> bool -> Z) (choice : Z -> Z -> list Z)
-         (rows : list row) (known : list Z) (vr : variant)
+         (rows : list row) (vax : list (Z * list Z)) (vr : variant)
          (w : world) (ops : list op) : list Z :=
   match ops with
   | [] => []
   | o :: ops' =>
-      let w' := step hashf choice rows known vr w o in
+      let w' := step hashf choice rows vax vr w o in
       (match o with
        | Apply _ =>
            if err w' then [9]
@@ -612,22 +658,23 @@ Fixpoint run_obs (mode : Z) (hashf : Z -> Z -> bool -> Z) (choice : Z -> Z -> li
              enc_bools (spec_all choice rows w) ++ enc_bools (spec_box rows w)
              ++ enc_bools (spec_polygon rows w) ++ enc_bools (spec_invalid rows w)
        | _ => []
-       end) ++ run_obs mode hashf choice rows known vr w' ops'
+       end) ++ run_obs mode hashf choice rows vax vr w' ops'
   end.
 
 (* case = (code variant: number of repairs present, rows, feats, known feature
-   numbers, registry, choice table, ops) *)
+   numbers, axes of the vertex sets, registry, choice table, ops) *)
 Definition case_t : Type :=
-  Z * list (list (Z * Z) * list bool) * list Z * list Z * list (Z * (Z * Z))
-  * list (Z * Z * list Z) * list (Z * list Z * list (Z * Z)).
+  Z * list (list (Z * Z) * list bool) * list Z * list Z * list (Z * list Z)
+  * list (Z * (Z * Z)) * list (Z * Z * list Z) * list (Z * list Z * list (Z * Z)).
 
 Definition run_mode (mode : Z) (case : case_t) : list Z :=
-  let '(nv, rws, fts, kn, rg, tab, tops) := case in
+  let '(nv, rws, fts, kn0, vx, rg, tab, tops) := case in
   let rows := map dec_row rws in
   let reg0 := map (fun e : Z * (Z * Z) => (fst e, (fst (snd e), negb (snd (snd e) =? 0)))) rg in
-  run_obs mode mk_hash (mk_choice tab) rows kn
-          {| see_removed := 1 <=? nv; precheck := 2 <=? nv; late_feats := 3 <=? nv |}
-          (init_world rows reg0 fts) (flat_map dec_op tops).
+  run_obs mode mk_hash (mk_choice tab) rows vx
+          {| see_removed := 1 <=? nv; precheck := 2 <=? nv; late_feats := 3 <=? nv;
+             reset_on_raise := 4 <=? nv |}
+          (init_world rows reg0 fts kn0) (flat_map dec_op tops).
 
 Definition run_flat (case : case_t) : list Z := run_mode 0 case.
 Definition spec_flat (case : case_t) : list Z := run_mode 1 case.
